@@ -132,6 +132,14 @@ func encNames(names []nameRef) string {
 }
 
 var c06Seeds = []string{
+	// script templates whose parameter list spans lines (LF and CRLF)
+	"package main\n\nscript show(id string,\n\tmsg string) {\n\tconsole.log(id, msg);\n}\n\ntempl T() {\n\t<p>x</p>\n}\n",
+	"package main\n\nscript show(\n\tid string,\n\tmsg string,\n) {\n\tconsole.log(id, msg);\n}\n",
+	"package main\r\n\r\nscript show(id string,\r\n\tmsg string) {\r\n\tconsole.log(id, msg);\r\n}\r\n",
+	// an @ that is not a call, close to the end of a file that has a longer call before it
+	"package main\n\ntempl Layout(t string, b bool) {\n\t<p>{ t }</p>\n}\n\ntempl T() {\n\t@Layout(\"Opening hours\", true)\n\t<p>@ 5pm</p>\n}\n",
+	"package main\n\ntempl T() {\n\t@Layout(\"Opening hours\", true)\n\t@",
+	"package main\n\ntempl T() {\n\t@\n}\n",
 	// spellings seeded changes needed: a tab after the script keyword; the dots of a spread attribute on a later line
 	"package main\n\nscript\thello(name string) {\n\tconsole.log(name);\n}\n\ntempl T() {\n\t<p>x</p>\n}\n",
 	"package main\nscript\t(",
